@@ -136,6 +136,43 @@ def run(ctx):
             except Exception as e:
                 ctx.violate("duplicate handler names raised %s" % type(e).__name__, c.replay(), signature="C16:duplicate-raised")
             ctx.evaluations += 1
+    # the same through command-line overrides: a load with overrides must deliver exactly the handler entries (count,
+    # order, values) that the hand-edited text delivers — sections addressed by an override included
+    from . import c14
+    from .. import ovgen
+    n_ov = 0
+    for c in cases:
+        if c.out[0] != "ok" or not c.hnames or not any(it[0] == "sect" for it in c.meta["items"]):
+            continue
+        specs = ovgen.gen_overrides(rng, c.elab, c.meta["items"], rng.randint(1, 3), pbadval=0.0, pmissing=0.0, pweird=0.0)
+        specs = [s for s in specs if "=" in s and "" not in s.split("=", 1)[0].split("/")
+                 and s.split("=", 1)[1] == s.split("=", 1)[1].strip() and "\n" not in s and "/" in s.split("=", 1)[0]]
+        if not specs:
+            continue
+        e = c14.edit(c.elab, c.meta["items"], specs)
+        if e is None:
+            continue
+        oa, ca, ha = cfgrun.real_load(c.real, "\n".join(c.lines) + "\n", cfgstream.URL, specs)
+        ob, cb, hb = cfgrun.real_load(c.real, "\n".join(cfggen.render_lines(rng, e, plain=True)) + "\n", cfgstream.URL)
+        ctx.evaluations += 1
+        if oa[0] != "ok" or ob[0] != "ok":
+            continue      # C14's business
+        n_ov += 1
+        ctx.nontriv((id(c.sd), tuple(c.lines), tuple(specs)))
+        logs = []
+        for h in (ha, hb):
+            rec = cfgrun.Recorder()
+            try:
+                h({n: rec.fn(n) for n in c.hnames})
+                logs.append((len(h), [(n, cfgrun.describe(v)) for n, v in rec.calls]))
+            except Exception as ex:
+                logs.append((len(h), "EXC:" + type(ex).__name__))
+        if logs[0] != logs[1]:
+            ctx.violate("with overrides %r the composite handler has %d entries and delivers %r; the hand-edited text gives %d entries and %r"
+                        % (specs, logs[0][0], [x[0] for x in logs[0][1]] if isinstance(logs[0][1], list) else logs[0][1],
+                           logs[1][0], [x[0] for x in logs[1][1]] if isinstance(logs[1][1], list) else logs[1][1]),
+                        dict(c.replay(), overrides=specs, with_overrides=logs[0], edited=logs[1]), signature="C16:overrides-lose-or-change-entries")
+    ctx.count("override-loads-compared", n_ov)
     ok = [c for c in cases if c.out[0] == "ok"]
     if ok:
         ctx.sample({"lines": ok[0].lines, "handler_len": len(ok[0].handler)})
